@@ -144,10 +144,47 @@ def classify(spec, kind: str, rec) -> str:
     return ""
 
 
+async def concurrent_burst(s, res: ShardResult, nonces: set, n: int) -> None:
+    """Several authenticated requests in flight at once on one client (asyncio.gather): every one must carry its own
+    nonce and verify; a request whose connection dies before the reply must not make the next one reuse its nonce."""
+    n0 = len(s.srv.requests)
+    t0 = time.time()
+    calls.CURRENT["expect"] = None
+    await asyncio.gather(*[s.bs.get_account_balances() if i % 2 else s.bs.get_open_orders("btcusd") for i in range(n)],
+                         return_exceptions=True)
+    t1 = time.time()
+    recs = s.srv.requests[n0:]
+    res.count("concurrent_requests", len(recs))
+    seen = []
+    for rec in recs:
+        sig, want, message = server.bitstamp_expected_signature(calls.SECRET, calls.KEY, rec)
+        nonce = rec.header("X-Auth-Nonce")
+        if sig is None or sig.lower() != want:
+            res.violate(Violation("C16", "signature_mismatch", f"concurrent bitstamp {rec.path}: signature does not verify",
+                                  scenario={"burst": n}))
+        if nonce in nonces or nonce in seen:
+            res.violate(Violation("C16", "nonce_repeated", f"nonce {nonce} used by more than one of {n} concurrent "
+                                                          f"bitstamp requests", scenario={"burst": n}))
+        seen.append(nonce)
+        ts = rec.header("X-Auth-Timestamp")
+        if ts is None or not ts.isdigit() or not (int(t0 * 1000) - 2 <= int(ts) <= int(t1 * 1000) + 2):
+            res.violate(Violation("C16", "timestamp_not_current", f"concurrent bitstamp request timestamp {ts}",
+                                  scenario={"burst": n}))
+    nonces.update(x for x in seen if x)
+    if len(recs) == n:
+        res.nontrivial.add(common.digest(["burst", n]))
+
+
 async def run_cases(specs: List[Dict[str, Any]], res: ShardResult, prop: str = "C16") -> None:
     nonces: set = set()
     async with Session() as s:
-        for spec in specs:
+        for idx, spec in enumerate(specs):
+            if spec.get("burst"):
+                await concurrent_burst(s, res, nonces, spec["burst"])
+                res.evaluations += 1
+                continue
+            if idx % 97 == 5:
+                await concurrent_burst(s, res, nonces, 2 + idx % 7)
             exp, recs, t0, t1, err = await s.call(spec)
             res.evaluations += 1
             res.count("requests_received", len(recs))
@@ -288,7 +325,7 @@ def finalize(prop: str, tier: str, merged: ShardResult) -> Dict[str, Any]:
     inc = []
     c = merged.counters
     for k, n in (("signatures_verified", 500), ("auth_sig", 200), ("auth_bitstamp", 100), ("auth_key", 10),
-                 ("throttled_requests", 100)):
+                 ("throttled_requests", 100), ("concurrent_requests", 50)):
         if c.get(k, 0) < n:
             inc.append(f"'{k}' observed only {c.get(k, 0)} times (< {n})")
     return {"inconclusive": inc}
